@@ -164,6 +164,9 @@ func composeProps() {
 	if c03xHook != nil {
 		c03xHook()
 	}
+	if c05xHook != nil {
+		c05xHook()
+	}
 	add := func(target string, from ...string) {
 		t, ok := props[target]
 		if !ok {
